@@ -86,6 +86,12 @@ def cases(tier, seed):
     for a in MENU:
         for f in HIST_FILES:
             yield {"k": "repeat", "a": a, "file": f}
+    # a file annotated in n earlier years with one prefix, then --merge-copyrights with another prefix, repeated
+    for p1 in PREFIXES:
+        for p2 in PREFIXES:
+            for n in (1, 2, 3):
+                for mergeyear in ("new", "same"):
+                    yield {"k": "merge", "p1": p1, "p2": p2, "n": n, "mergeyear": mergeyear}
 
 
 def line_marker(cls, mode):
@@ -353,7 +359,24 @@ def ev_repeat(c) -> R:
     return r
 
 
-_EV = {"type": ev_type, "style": ev_style, "pair": ev_pair, "repeat": ev_repeat, "tail": ev_tail, "only": ev_only, "linebreak": ev_linebreak}
+def ev_merge(c) -> R:
+    r = R()
+    root = fresh_dir("c10")
+    materialise(root, {"a.py": "x = 1\n"})
+    p = root / "a.py"
+    for i in range(c["n"]):
+        pre = annot.annotate(root, ["--copyright", "Jane Doe", "--year", str(2015 + i), "--copyright-prefix", c["p1"]], [p])
+        if pre.exc or pre.exit_code != 0:
+            raise HarnessError(f"set-up annotate failed: {pre.brief()}")
+    year = "2021" if c["mergeyear"] == "new" else "2015"
+    argv = ["--copyright", "Jane Doe", "--year", year, "--copyright-prefix", c["p2"], "--merge-copyrights"]
+    res = twice(r, root, argv, [p], f"a.py annotated for {c['n']} year(s) with prefix {c['p1']}, then", f"merge|n={c['n']}|{'same-prefix' if c['p1'] == c['p2'] else 'other-prefix'}|{c['mergeyear']}", n=3)
+    r.outcome = "n/a" if res is None else f"merge-exit{res.exit_code}"
+    r.tags.append("merge")
+    return r
+
+
+_EV = {"merge": ev_merge, "type": ev_type, "style": ev_style, "pair": ev_pair, "repeat": ev_repeat, "tail": ev_tail, "only": ev_only, "linebreak": ev_linebreak}
 
 
 def evaluate(c) -> R:
